@@ -62,6 +62,10 @@ def layersStep (ls : Layers.Layers) : Sexp → Option (Layers.Layers × String)
     let k ← nat? k
     let _ ← ls.slots[k]?
     pure (ls, match ls.getName k with | some s => toString (ofBytes s) | none => "#f")
+  | .list [.atom "byname", s] => do
+    match ls.importByName (← bytes? s) with
+    | some (ls', k) => pure (ls', toString k)
+    | none => pure (ls, "err")
   | .list [.atom "nextnum"] => pure (ls, match ls.nextnum with | some n => toString n | none => "err")
   | _ => none
 
